@@ -216,6 +216,29 @@ class _Failed(object):
 FAILED = _Failed()
 
 
+class _Timeout(BaseException):
+    """a single call exceeded the per-call time limit (not a property violation: recorded as a note)"""
+
+
+@contextlib.contextmanager
+def time_limit(seconds):
+    import signal
+    import threading
+    if threading.current_thread() is not threading.main_thread() or not hasattr(signal, 'setitimer'):
+        yield
+        return
+
+    def handler(signum, frame):
+        raise _Timeout()
+    old = signal.signal(signal.SIGALRM, handler)
+    signal.setitimer(signal.ITIMER_REAL, seconds)
+    try:
+        yield
+    finally:
+        signal.setitimer(signal.ITIMER_REAL, 0.)
+        signal.signal(signal.SIGALRM, old)
+
+
 class CallFailed(Exception):
     """an attempted entry-point call raised or returned non-finite values (already recorded)"""
 
@@ -238,6 +261,7 @@ class Scn(object):
         self.kinds = {}                      # ep -> set of kinds
         self.preconditions = {}              # ep -> count of skipped cases (documented precondition not met)
         self.slow = []                       # calls that took more than 20 s
+        self.call_limit = ctx.n(60., 300.)   # s per call; a call that takes longer is abandoned and noted (speed is no property)
         self.t0 = time.time()
         self.budget = ctx.n(140., 1500.)     # s; afterwards repetitions shrink to 1
         os.makedirs(SCRATCH, exist_ok=True)
@@ -282,7 +306,7 @@ class Scn(object):
         t_call = time.time()
         try:
             try:
-                with quiet():
+                with quiet(), time_limit(self.call_limit):
                     res = thunk()
             finally:
                 dt = time.time() - t_call
@@ -290,6 +314,11 @@ class Scn(object):
                     self.slow.append((ep, kind, round(dt, 1), J(inputs) if dt > 120. else None))
         except (KeyboardInterrupt, SystemExit, MemoryError):
             raise
+        except _Timeout:
+            self.slow.append((ep, kind, 'abandoned after %g s' % self.call_limit, J(inputs)))
+            if need:
+                raise CallFailed(ep)
+            return FAILED
         except BaseException as e:      # noqa: BLE001 — the property is exactly "does not raise"
             tb = sys.exc_info()[2]
             self._violate('raises:' + ep + suffix,
@@ -882,9 +911,10 @@ FP_METHODS = ['masses', 'mass_frac', 'moles', 'mol_frac', 'partial_pressures', '
 def _fp_all(S):
     from tamoc import dbm
     r = S.r
-    kinds = ['gas', 'liquid', 'mixed']
-    for i in range(S.reps()):
-        kind = kinds[i % 3]
+    nrep = S.reps()
+    for i in range(nrep):
+        # two-phase particles re-run the flash inside every individual property method (slow): one case in six
+        kind = 'mixed' if (i % 6 == 5 or (nrep <= 3 and i == 2)) else ('gas', 'liquid')[i % 2]
         sp = fluid_spec(r, kind)
         fp = S.attempt('dbm.FluidParticle', kind, sp,
                        lambda sp=sp: dbm.FluidParticle(list(sp['composition']), fp_type=sp['fp_type']), need=True)
@@ -1013,6 +1043,937 @@ def _dbm_helpers(S):
         S.attempt('dbm.stability_analysis', sp['kind'], dict(d2, zi=zi, di=di),
                       lambda: dbm.stability_analysis(m.copy(), T, P, *args, K0.copy(), zi.copy(), di.copy()))
 
+
+# =====================================================================================================
+# dispersed_phases
+# =====================================================================================================
+
+def _particle_case(S, kinds=('gas', 'liquid', 'inert'), current='random', chems=False):
+    """(profile, z0, dbm object, spec, yk) for a release inside a synthetic profile"""
+    r = S.r
+    kind = r.choice(list(kinds))
+    sp = inert_spec(r) if kind == 'inert' else fluid_spec(r, kind)
+    ps = profile_spec(r, current=current, chems=(sp['composition'] if (chems and kind != 'inert') else ()))
+    prf = build_profile(ps)
+    z0 = r.uniform(0.3, 0.95) * ps['H']
+    return prf, z0, build_dbm(sp), sp, yk_of(sp)
+
+
+def _cp(m0):
+    """initial_conditions returns an array (soluble) or a float (inert): hand over what it returned, arrays as copies"""
+    return np.array(m0, copy=True) if isinstance(m0, np.ndarray) and m0.ndim > 0 else m0
+
+
+def _wrap_args(r):
+    return dict(K=r.choice([1., 1., r.uniform(0.2, 2.)]), K_T=r.choice([1., 1., 0., r.uniform(0.2, 2.)]),
+                fdis=10 ** r.uniform(-8, -2), t_hyd=r.choice([0., 0., r.uniform(1., 500.)]), lag_time=r.random() < 0.5)
+
+
+def _particle_numbers(p):
+    out = [p.m0, p.T0, p.cp, p.K, p.K_T, p.fdis, p.t_hyd]
+    for a in ('m', 'T', 'us', 'rho_p', 'A', 'Cs', 'beta', 'beta_T', 'k_bio', 'nb0', 'lambda_1'):
+        if hasattr(p, a):
+            out.append(getattr(p, a))
+    return out
+
+
+@entry('dispersed_phases.initial_conditions', 'dispersed_phases.SingleParticle', 'dispersed_phases.SingleParticle.properties',
+       'dispersed_phases.SingleParticle.diameter', 'dispersed_phases.SingleParticle.biodegradation_rate',
+       'dispersed_phases.PlumeParticle', 'dispersed_phases.PlumeParticle.properties', 'dispersed_phases.PlumeParticle.diameter',
+       'dispersed_phases.PlumeParticle.biodegradation_rate', 'dispersed_phases.PlumeParticle.update')
+def _dp_particles(S):
+    from tamoc import dispersed_phases as dp
+    r = S.r
+    kinds = ['gas', 'liquid', 'inert']
+    for i in range(S.reps()):
+        prf, z0, obj, sp, yk = _particle_case(S, kinds=(kinds[i % 3],))
+        kind = sp['kind']
+        de = lu(r, 2e-4, 1.5e-2)
+        q_type = r.choice([0, 1, 2])
+        q = None if q_type == 0 else (lu(r, 1e-3, 1.) if q_type == 1 else lu(r, 1e-2, 10.))
+        T0 = r.choice([None, None, float(prf.get_values(z0, ['temperature'])[0]) + r.uniform(0., 30.)])
+        d = dict(sp, profile=prf._c20_descr, z0=z0, de=de, q=q, q_type=q_type, T0=T0)
+        ic = S.attempt('dispersed_phases.initial_conditions', '%s:q_type%d' % (kind, q_type), d,
+                       lambda: dp.initial_conditions(prf, z0, obj, yk.copy(), q, q_type, de, T0))
+        if ic is FAILED:
+            continue
+        m0, T0p, nb0, P, Sa, Ta = ic
+        w = _wrap_args(r)
+        d = dict(d, m0=m0, T0=T0p, nb0=nb0, P=P, Sa=Sa, Ta=Ta, **w)
+        for cls in ('SingleParticle', 'PlumeParticle'):
+            if cls == 'SingleParticle':
+                part = S.attempt('dispersed_phases.SingleParticle', kind, d,
+                                 lambda: dp.SingleParticle(obj, _cp(m0), T0p, **w))
+            else:
+                lam = r.uniform(0.7, 1.)
+                part = S.attempt('dispersed_phases.PlumeParticle', kind, dict(d, lambda_1=lam),
+                                 lambda: dp.PlumeParticle(obj, _cp(m0), T0p, nb0, lam, P, Sa, Ta, **w))
+            if part is FAILED:
+                continue
+            S.attempt('dispersed_phases.' + cls, kind + ':attributes', d, lambda: _particle_numbers(part))
+            # a later state of the same particle: smaller masses, other depth, age before / after t_hyd
+            f = r.uniform(0.05, 1.)
+            m = np.atleast_1d(np.array(m0, dtype=float)) * f
+            z1 = r.uniform(prf.z_min, z0)
+            Ta1, Sa1, P1 = prf.get_values(z1, ['temperature', 'salinity', 'pressure'])
+            T1 = Ta1 + r.choice([0., r.uniform(0., 10.)])
+            t = r.choice([0., r.uniform(0., 1000.), 1e5])
+            d1 = dict(d, m=m, T=T1, P=P1, Sa=Sa1, Ta=Ta1, t=t)
+            S.attempt('dispersed_phases.%s.properties' % cls, kind, d1, lambda: part.properties(m.copy(), T1, P1, Sa1, Ta1, t))
+            S.attempt('dispersed_phases.%s.diameter' % cls, kind, d1, lambda: part.diameter(m.copy(), T1, P1, Sa1, Ta1))
+            S.attempt('dispersed_phases.%s.biodegradation_rate' % cls, kind, d1, lambda: part.biodegradation_rate(t))
+            if cls == 'PlumeParticle':
+                def upd(mm):
+                    part.update(mm, T1, P1, Sa1, Ta1, t)
+                    return _particle_numbers(part)
+                S.attempt('dispersed_phases.PlumeParticle.update', kind, d1, lambda: upd(m.copy()))
+                # documented branch: all mass gone (dissolved particle)
+                S.attempt('dispersed_phases.PlumeParticle.update', kind + ':dissolved', dict(d1, m=0. * m), lambda: upd(0. * m))
+
+
+def _plume_particles(S, n=None, need_soluble=False, current='random'):
+    """a list of PlumeParticle objects sharing one profile and (for the soluble ones) one composition"""
+    from tamoc import stratified_plume_model as spm
+    r = S.r
+    n = n or r.randint(1, 3)
+    gas = fluid_spec(r, 'gas')
+    ps = profile_spec(r, current=current, chems=gas['composition'] if r.random() < 0.5 else ())
+    prf = build_profile(ps)
+    z0 = r.uniform(0.4, 0.95) * ps['H']
+    parts, specs = [], []
+    for i in range(n):
+        if (need_soluble and i == 0) or r.random() < 0.6:
+            sp = dict(gas, yk=[float(v) for v in dirichlet(r, len(gas['composition']), first=0.6)])
+        else:
+            sp = inert_spec(r)
+        sp = dict(sp, mb0=lu(r, 1e-2, 2.), de=lu(r, 5e-4, 1e-2), lambda_1=r.uniform(0.7, 1.))
+        obj = build_dbm(sp)
+        parts.append(spm.particle_from_mb0(prf, z0, obj, yk_of(sp), sp['mb0'], sp['de'], sp['lambda_1']))
+        specs.append(sp)
+    return prf, z0, parts, {'profile': ps, 'z0': z0, 'particles': specs}
+
+
+@entry('dispersed_phases.zfe_volume_flux', 'dispersed_phases.wuest_ic', 'dispersed_phases.bf_average',
+       'dispersed_phases.get_chem_names', 'dispersed_phases.particles_state_space')
+def _dp_ic(S):
+    from tamoc import dispersed_phases as dp, stratified_plume_model as spm, bent_plume_model as bpm, seawater
+    r = S.r
+    for i in range(S.reps()):
+        prf, z0, parts, d = _plume_particles(S)
+        p = spm.ModelParams(prf) if i % 2 == 0 else bpm.ModelParams(prf)
+        R = lu(r, 0.02, 0.5)
+        X0 = r.choice([z0, [0., 0., z0], np.array([0., 0., z0])])
+        kind = '%dparticles:%s' % (len(parts), 'spm' if i % 2 == 0 else 'bpm')
+        S.attempt('dispersed_phases.zfe_volume_flux', kind, dict(d, R=R, X0=X0), lambda: dp.zfe_volume_flux(prf, parts, p, X0, R))
+        Ta, Sa, P = prf.get_values(z0, ['temperature', 'salinity', 'pressure'])
+        rho = seawater.density(Ta, Sa, P)
+        lam = np.array([pt.lambda_1 for pt in parts])
+        us = np.array([pt.us for pt in parts])
+        rho_p = np.array([pt.rho_p for pt in parts])
+        Q = np.array([np.sum(pt.m) * pt.nb0 / pt.rho_p for pt in parts])
+        lam_ave = S.attempt('dispersed_phases.bf_average', kind, dict(d, rho=rho, parm=lam),
+                            lambda: dp.bf_average(parts, rho, p.g, p.rho_r, lam.copy()))
+        if lam_ave is not FAILED and lam_ave > 0.:
+            u0 = float(np.sum(Q) / (np.pi * (lam_ave * R) ** 2))
+            S.attempt('dispersed_phases.wuest_ic', kind, dict(d, u_0=u0, lambda_ave=lam_ave, us=us, rho_p=rho_p, rho=rho, Q=Q, R=R, Fr_0=p.Fr_0),
+                      lambda: dp.wuest_ic(u0, parts, lam, lam_ave, us, rho_p, rho, Q, R, p.g, p.Fr_0))
+        S.attempt('dispersed_phases.get_chem_names', kind, d, lambda: dp.get_chem_names(parts))
+        nb = np.array([pt.nb0 for pt in parts])
+        S.attempt('dispersed_phases.particles_state_space', kind, d, lambda: dp.particles_state_space(parts, nb))
+
+
+@entry('dispersed_phases.shear_entrainment')
+def _dp_shear(S):
+    from tamoc import dispersed_phases as dp, bent_plume_model as bpm, stratified_plume_model as spm
+    r = S.r
+    prf = build_profile(profile_spec(r, current='none'))
+    for i in range(S.reps()):
+        p = bpm.ModelParams(prf) if i % 2 else spm.ModelParams(prf)
+        rho_a = r.uniform(1020., 1050.)
+        U = lu(r, 1e-3, 3.)
+        # plume (lighter or heavier than ambient), pure jet (equal densities), horizontal section (sin_p = 0)
+        kind = ('plume', 'jet', 'plume', 'horizontal')[i % 4]
+        rho = rho_a if kind == 'jet' else rho_a * (1. + r.choice([-1., 1.]) * lu(r, 1e-5, 3e-2))
+        sin_p = 0. if kind == 'horizontal' else r.choice([-1., r.uniform(-1., 1.)])
+        a = dict(U=U, Us=r.choice([0., r.uniform(-0.3, 0.3)]), rho=rho, rho_a=rho_a, b=lu(r, 0.02, 50.), sin_p=sin_p)
+        S.attempt('dispersed_phases.shear_entrainment', kind, a, lambda: dp.shear_entrainment(a['U'], a['Us'], a['rho'], a['rho_a'], a['b'], a['sin_p'], p))
+
+
+@entry('dispersed_phases.hydrate_formation_time')
+def _dp_hyd(S):
+    from tamoc import dispersed_phases as dp
+    r = S.r
+    for _ in range(S.reps()):
+        prf, z0, obj, sp, yk = _particle_case(S, kinds=('gas',))
+        z = r.uniform(0.1, 1.) * prf.z_max
+        Ta, Sa, P = prf.get_values(z, ['temperature', 'salinity', 'pressure'])
+        T = Ta + r.choice([0., r.uniform(0., 20.)])
+        m = obj.masses_by_diameter(lu(r, 5e-4, 1.5e-2), T, P, yk)
+        S.attempt('dispersed_phases.hydrate_formation_time', 'gas', dict(sp, profile=prf._c20_descr, z=z, m=m, T=T),
+                  lambda: dp.hydrate_formation_time(obj, z, m.copy(), T, prf))
+
+
+def _save_particles_direct(S, parts, kind, d, single=False):
+    """direct call of save_particle_to_nc_file into a scratch file; returns the path or FAILED"""
+    from tamoc import dispersed_phases as dp, model_share
+    chem_names = dp.get_chem_names(parts)
+    K_T0 = np.array([pt.K_T for pt in parts])
+    path = S.tmp('particles') + '.nc'
+
+    def save():
+        nc = model_share.tamoc_nc_file(path, 'C20 particle file', 'none', 'harness/c20.py')
+        try:
+            dp.save_particle_to_nc_file(nc, chem_names, parts[0] if single else parts, K_T0)
+        finally:
+            nc.close()
+    if S.attempt('dispersed_phases.save_particle_to_nc_file', kind, d, save) is FAILED:
+        return FAILED
+    return path
+
+
+def _load_particles_direct(S, path, kind, d):
+    from netCDF4 import Dataset
+    from tamoc import dispersed_phases as dp
+
+    def load():
+        nc = Dataset(path)
+        try:
+            ps, names = dp.load_particle_from_nc_file(nc)
+        finally:
+            nc.close()
+        return [_particle_numbers(q) for q in ps], names
+    return S.attempt('dispersed_phases.load_particle_from_nc_file', kind, d, load)
+
+
+@entry('dispersed_phases.save_particle_to_nc_file', 'dispersed_phases.load_particle_from_nc_file')
+def _dp_nc(S):
+    """stand-alone round trip for SingleParticle lists, stand-alone save of PlumeParticle lists.  Reading PlumeParticle /
+    bent_plume_model.Particle lists needs the variables P, Sa, Ta that only the models' save_sim adds to the file, and
+    writing bent-plume particles needs their simulation attributes: those kinds are exercised on the files and
+    particles of the simulations (see the model sections)."""
+    from tamoc import dispersed_phases as dp
+    for i in range(S.reps()):
+        prf, z0, parts, d = _plume_particles(S, n=1 if i % 2 == 0 else None)
+        if i % 2 == 0:
+            pt = parts[0]
+            parts = [dp.SingleParticle(pt.particle, pt.m0, pt.T0, K=pt.K, K_T=pt.K_T, fdis=pt.fdis, t_hyd=pt.t_hyd)]
+            path = _save_particles_direct(S, parts, 'SingleParticle', d, single=True)
+            if path is not FAILED:
+                _load_particles_direct(S, path, 'SingleParticle', d)
+        else:
+            path = _save_particles_direct(S, parts, 'PlumeParticle', d)
+        if path is not FAILED and os.path.exists(path):
+            os.remove(path)
+
+
+# =====================================================================================================
+# ambient
+# =====================================================================================================
+
+def _cast(r, n=None, H=None, extras=True):
+    """synthetic stable CTD table in standard units: (data [z, T, S, P, extras...], names, units)"""
+    from tamoc import ambient
+    ps = profile_spec(r, H=H, current='none', n=n)
+    z, T, S = profile_columns(ps)
+    P = ambient.compute_pressure(z, T, S, 0)
+    cols, names, units = [z, T, S, P], ['z', 'temperature', 'salinity', 'pressure'], ['m', 'K', 'psu', 'Pa']
+    if extras:
+        for c in r.sample(['oxygen', 'methane', 'nitrogen', 'tracer_a'], r.randint(0, 2)):
+            cols.append(10 ** r.uniform(-5, -2) * (1. + 0.5 * np.cos(z / ps['H'] * r.uniform(1., 6.))))
+            names.append(c)
+            units.append('kg/m^3')
+        if r.random() < 0.5:
+            for c in ('ua', 'va'):
+                cols.append(r.uniform(-0.3, 0.3) + 0.05 * np.sin(z / ps['H'] * 4.))
+                names.append(c)
+                units.append('m/s')
+    return np.column_stack(cols), names, units, ps
+
+
+def _xr_dataset(data, names, units):
+    import xarray as xr
+    ds = xr.Dataset()
+    ds.coords[names[0]] = np.array(data[:, 0])
+    ds.coords[names[0]].attrs['units'] = units[0]
+    for j in range(1, len(names)):
+        ds[names[j]] = ((names[0]), np.array(data[:, j]))
+        ds[names[j]].attrs['units'] = units[j]
+    return ds
+
+
+def _profile_numbers(prf, extra_names=()):
+    """what a constructed / modified profile holds and answers"""
+    zq = np.linspace(prf.z_min, prf.z_max, 7)
+    names = list(prf.f_names) + list(extra_names)
+    return [prf.z_min, prf.z_max, np.array(prf.interp_data, dtype=float), prf.get_values(zq, names),
+            prf.get_values(float(zq[3]), names)]
+
+
+def _write_cast_nc(S, data, names, units):
+    """netCDF file of a cast written with tamoc's own tools; returns the path"""
+    from tamoc import ambient
+    path = S.tmp('cast') + '.nc'
+    nc = ambient.create_nc_db(path, 'C20 synthetic cast', 'harness/c20.py', 'No Sea Name', 28.5, 270.7, 1275177600.0)
+    try:
+        ambient.fill_nc_db(nc, data, names, units, ['synthetic'] * len(names), 0)
+    finally:
+        nc.close()
+    return path
+
+
+@entry('ambient.Profile', 'ambient.BaseProfile', 'ambient.Profile.close_nc')
+def _amb_construct(S):
+    from netCDF4 import Dataset
+    from tamoc import ambient
+    r = S.r
+    ztsp = ['z', 'temperature', 'salinity', 'pressure']
+    routes = ['array3', 'array', 'world', 'surface-array', 'surface-list', 'xarray', 'ncfile', 'ncdataset', 'array+current',
+              'array-nostab', 'base-xarray']
+    for i in range(max(S.reps(), 1) * 4):
+        route = routes[i % len(routes)]
+        data, names, units, ps = _cast(r, extras=route not in ('array3',))
+        chem_names, chem_units = names[4:], units[4:]
+        d = {'route': route, 'cast': ps, 'names': names, 'units': units}
+        close = None
+        if route == 'array3':
+            th = lambda: ambient.Profile(data[:, :3].copy(), ztsp=list(ztsp), ztsp_units=['m', 'K', 'psu', 'Pa'])
+        elif route in ('array', 'array-nostab'):
+            kw = dict(err=r.choice([0.01, 0.001, 0.]), stabilize_profile=(route == 'array'))
+            d.update(kw)
+            th = lambda: ambient.Profile(data.copy(), ztsp=list(ztsp), chem_names=list(chem_names), ztsp_units=units[:4],
+                                         chem_units=list(chem_units), **kw)
+        elif route == 'array+current':
+            data, names, units = data[:, :4], names[:4], units[:4]
+            chem_names, chem_units = [], []
+            H = ps['H']
+            cur = r.choice([np.array([0.1, 0.05, 0.]), np.array([[0., 0.1, 0., 0.], [H, 0.2, 0.05, 0.]])])
+            d.update(current=cur, current_units=['m/s', 'm/s', 'm/s'])
+            th = lambda: ambient.Profile(data.copy(), ztsp=list(ztsp), ztsp_units=units[:4], current=cur.copy(),
+                                         current_units=['m/s', 'm/s', 'm/s'])
+        elif route == 'world':
+            th = lambda: ambient.Profile(None)
+        elif route == 'surface-array':
+            sv = np.array([0., r.uniform(275., 303.), r.uniform(30., 37.)])
+            d['data'] = sv
+            th = lambda: ambient.Profile(sv.copy())
+        elif route == 'surface-list':
+            sv = [0., r.uniform(275., 303.), r.uniform(30., 37.)]
+            d['data'] = sv
+            th = lambda: ambient.Profile(list(sv))
+        elif route == 'xarray':
+            ds = _xr_dataset(data, names, units)
+            th = lambda: ambient.Profile(ds, ztsp=list(ztsp), chem_names=list(chem_names))
+        elif route == 'base-xarray':
+            ds = _xr_dataset(data, names, units)
+            th = lambda: ambient.BaseProfile(ds, ztsp=list(ztsp), ztsp_units=units[:4], chem_names=list(chem_names),
+                                             chem_units=list(chem_units))
+        elif route == 'ncfile':
+            path = _write_cast_nc(S, data, names, units)
+            cn = r.choice(['all', None])
+            d['chem_names'] = cn
+            th = lambda: ambient.Profile(path, ztsp=list(ztsp), chem_names=('all' if cn else list(chem_names)))
+        else:
+            path = _write_cast_nc(S, data, names, units)
+            nc = Dataset(path, 'a')
+            close = nc
+            th = lambda: ambient.Profile(nc, ztsp=list(ztsp), chem_names='all')
+        ep = 'ambient.BaseProfile' if route == 'base-xarray' else 'ambient.Profile'
+        prf = S.attempt(ep, route, d, th)
+        if prf is not FAILED:
+            S.attempt(ep, route + ':contents', d, lambda: _profile_numbers(prf, ['not_in_profile']))
+            if hasattr(prf, 'close_nc'):
+                def cl():
+                    prf.close_nc()
+                    return _profile_numbers(prf)
+                S.attempt('ambient.Profile.close_nc', route, d, cl)
+        elif close is not None:
+            try:
+                close.close()
+            except Exception:      # noqa: BLE001
+                pass
+
+
+def _any_profile(S, kinds=('array', 'world', 'ncdataset')):
+    """a profile for the query / modification methods -> (profile, kind, description, closer)"""
+    from netCDF4 import Dataset
+    from tamoc import ambient
+    r = S.r
+    kind = r.choice(list(kinds))
+    if kind == 'world':
+        return ambient.Profile(None), kind, {'profile': 'world-ocean average'}
+    data, names, units, ps = _cast(r)
+    if kind == 'array':
+        prf = ambient.Profile(data.copy(), ztsp=names[:4], chem_names=names[4:], ztsp_units=units[:4], chem_units=units[4:])
+    else:
+        path = _write_cast_nc(S, data, names, units)
+        prf = ambient.Profile(Dataset(path, 'a'), chem_names='all')
+    return prf, kind, {'profile': ps, 'names': names, 'route': kind}
+
+
+@entry('ambient.Profile.get_values', 'ambient.Profile.get_units', 'ambient.Profile.buoyancy_frequency')
+def _amb_query(S):
+    r = S.r
+    for i in range(S.reps()):
+        prf, kind, d = _any_profile(S)
+        names = list(prf.f_names)
+        r.shuffle(names)
+        names = names[:r.randint(1, len(names))] + r.sample(['ua', 'no_such_variable'], r.randint(0, 2))
+        zs = [r.uniform(prf.z_min, prf.z_max), np.sort(np.array([r.uniform(prf.z_min, prf.z_max) for _ in range(5)])),
+              [prf.z_min, prf.z_max], np.array([prf.z_min - 5., prf.z_max + 50.]), float(prf.z_max)]
+        for z, zk in zip(zs, ('float', 'ndarray', 'list', 'out-of-range', 'bottom')):
+            S.attempt('ambient.Profile.get_values', zk, dict(d, z=z, names=names),
+                      lambda z=z: prf.get_values(z.copy() if isinstance(z, np.ndarray) else z, list(names)))
+        S.attempt('ambient.Profile.get_values', 'name-as-str', dict(d, z=zs[0], names='temperature'),
+                  lambda: prf.get_values(zs[0], 'temperature'))
+        S.attempt('ambient.Profile.get_units', 'list', dict(d, names=names), lambda: prf.get_units(list(names)))
+        S.attempt('ambient.Profile.get_units', 'str', dict(d, names='salinity'), lambda: prf.get_units('salinity'))
+        h = r.choice([0.01, 0.01, lu(r, 0.005, 0.3)])
+        S.attempt('ambient.Profile.buoyancy_frequency', 'float', dict(d, z=zs[0], h=h), lambda: prf.buoyancy_frequency(zs[0], h))
+        S.attempt('ambient.Profile.buoyancy_frequency', 'ndarray', dict(d, z=zs[1], h=h), lambda: prf.buoyancy_frequency(zs[1].copy(), h=h))
+        S.attempt('ambient.Profile.buoyancy_frequency', 'ends', dict(d, z=[prf.z_min, prf.z_max]),
+                  lambda: (prf.buoyancy_frequency(float(prf.z_min)), prf.buoyancy_frequency(float(prf.z_max))))
+        prf.close_nc()
+
+
+@entry('ambient.Profile.append', 'ambient.Profile.extend_profile_deeper', 'ambient.Profile.add_computed_gas_concentrations',
+       'ambient.Profile.insert_density', 'ambient.Profile.insert_potential_density', 'ambient.Profile.insert_buoyancy_frequency')
+def _amb_modify(S):
+    r = S.r
+    for i in range(S.reps()):
+        # ---- append
+        prf, kind, d = _any_profile(S)
+        H = float(prf.z_max)
+        zc = np.linspace(0., H, r.randint(2, 12)) if r.random() < 0.7 else np.linspace(0.2 * H, 0.7 * H, 4)
+        new = np.column_stack([zc, r.uniform(0.01, 0.3) * np.ones(len(zc)), 0.05 * np.cos(zc / H), 1e-4 * (1. + zc / H)])
+        syms, uns = ['z', 'ua', 'va', 'tracer_b'], ['m', 'm/s', 'm/s', 'mg/l']
+        com = r.choice([None, ['measured'] * 4])
+
+        def app():
+            prf.append(new.copy(), list(syms), list(uns), comments=com, z_col=0)
+            return _profile_numbers(prf), prf.get_units(syms[1:])
+        S.attempt('ambient.Profile.append', kind + ':3-variables', dict(d, data=new, var_symbols=syms, var_units=uns, comments=com), app)
+        one = np.column_stack([zc, 1e-3 * np.ones(len(zc))])
+        S.attempt('ambient.Profile.append', kind + ':str-arguments', dict(d, data=one, var_symbols='oxygen2', var_units='kg/m^3'),
+                  lambda: (prf.append(np.column_stack([one[:, 1], one[:, 0]]), ['oxygen2', 'z'], ['kg/m^3', 'm'], z_col=1),
+                           _profile_numbers(prf))[1])
+        # ---- derived columns
+        S.attempt('ambient.Profile.insert_density', kind, d, lambda: (prf.insert_density(), _profile_numbers(prf))[1])
+        P0 = r.choice([101325., lu(r, 1e5, 1e7)])
+        S.attempt('ambient.Profile.insert_density', kind + ':P0', dict(d, P0=P0), lambda: prf.insert_density(P0=P0))
+        S.attempt('ambient.Profile.insert_potential_density', kind, d, lambda: (prf.insert_potential_density(), _profile_numbers(prf))[1])
+        S.attempt('ambient.Profile.insert_buoyancy_frequency', kind, d, lambda: (prf.insert_buoyancy_frequency(), _profile_numbers(prf))[1])
+        prf.close_nc()
+        # ---- dissolved atmospheric gases
+        prf, kind, d = _any_profile(S)
+        S.attempt('ambient.Profile.add_computed_gas_concentrations', kind, d,
+                  lambda: (prf.add_computed_gas_concentrations(), _profile_numbers(prf))[1])
+        prf.close_nc()
+        # ---- deeper
+        prf, kind, d = _any_profile(S)
+        z_new = float(prf.z_max) + lu(r, 10., 2000.)
+        how = r.choice(['default', 'h_N', 'N'])
+        kw = {} if how == 'default' else ({'h_N': r.uniform(0.5, 1.), 'h': lu(r, 0.005, 0.2)} if how == 'h_N' else {'N': lu(r, 1e-4, 1e-2)})
+        if kind == 'ncdataset':
+            kw['nc_name'] = S.tmp('deeper') + '.nc'
+
+        def ext():
+            prf.extend_profile_deeper(z_new, **kw)
+            return _profile_numbers(prf)
+        S.attempt('ambient.Profile.extend_profile_deeper', kind + ':' + how, dict(d, z_new=z_new, **{k: v for k, v in kw.items() if k != 'nc_name'}), ext)
+        prf.close_nc()
+
+
+@entry('ambient.xr_check_units', 'ambient.xr_convert_units', 'ambient.xr_coarsen_dataset', 'ambient.xr_stabilize_dataset',
+       'ambient.xr_dataset_to_array', 'ambient.xr_array_to_dataset', 'ambient.xr_add_data_from_numpy', 'ambient.get_xarray_data')
+def _amb_xr(S):
+    from tamoc import ambient
+    r = S.r
+
+    def num(ds):
+        return {str(k): np.array(ds[k].values, dtype=float) for k in list(ds.keys()) + list(ds.coords)}
+    for _ in range(S.reps()):
+        data, names, units, ps = _cast(r)
+        d = {'cast': ps, 'names': names, 'units': units}
+        ds = S.attempt('ambient.xr_array_to_dataset', 'cast', d, lambda: ambient.xr_array_to_dataset(data.copy(), list(names), list(units)),
+                       need=True)
+        S.attempt('ambient.xr_array_to_dataset', 'cast:contents', d, lambda: num(ds))
+        S.attempt('ambient.xr_dataset_to_array', 'cast', d, lambda: ambient.xr_dataset_to_array(ds, 'z'))
+        # units in other recognised systems
+        d2 = data.copy()
+        d2[:, 1] -= 273.15
+        d2[:, 3] = (d2[:, 3] - 101325.) / 1e4
+        u2 = ['meter', 'deg C', 'psu', 'db'] + ['mg/l' if u == 'kg/m^3' else 'meter second-1' for u in units[4:]]
+        for j, u in enumerate(units[4:]):
+            if u == 'kg/m^3':
+                d2[:, 4 + j] *= 1e3
+        ds2 = _xr_dataset(d2, names, u2)
+        S.attempt('ambient.xr_convert_units', 'other-units', dict(d, units=u2), lambda: (ambient.xr_convert_units(ds2, 'z'), num(ds2))[1])
+        ds3 = _xr_dataset(data, names, units)
+        for k in list(ds3.keys())[:2]:
+            del ds3[k].attrs['units']
+        S.attempt('ambient.xr_check_units', 'missing-units', d, lambda: (ambient.xr_check_units(ds3, names[1:], units[1:]), num(ds3))[1])
+        err = r.choice([0.01, 0.1, 1e-3])
+        S.attempt('ambient.xr_coarsen_dataset', 'cast', dict(d, err=err), lambda: num(ambient.xr_coarsen_dataset(ds, 'z', err)))
+        S.attempt('ambient.xr_stabilize_dataset', 'cast', d, lambda: num(ambient.xr_stabilize_dataset(_xr_dataset(data, names, units), 'z', names[:4])))
+        zc = np.linspace(0., ps['H'] * r.uniform(0.5, 1.2), r.randint(2, 9))
+        new = np.column_stack([zc, 1e-3 * (1. + zc / ps['H']), 0.1 * np.ones(len(zc))])
+        ds4 = _xr_dataset(data, names, units)
+        S.attempt('ambient.xr_add_data_from_numpy', 'two-variables', dict(d, data=new),
+                  lambda: (ambient.xr_add_data_from_numpy(ds4, 'z', new.copy(), ['argon', 'wa'], ['kg/m^3', 'm/s']), num(ds4))[1])
+        S.attempt('ambient.get_xarray_data', 'cast', d, lambda: ambient.get_xarray_data(ds, names[:4], names[4:]))
+
+
+@entry('ambient.create_nc_db', 'ambient.fill_nc_db', 'ambient.get_nc_data')
+def _amb_nc(S):
+    from tamoc import ambient
+    r = S.r
+    for _ in range(S.reps()):
+        data, names, units, ps = _cast(r)
+        d = {'cast': ps, 'names': names, 'units': units}
+        path = S.tmp('db') + '.nc'
+        nc = S.attempt('ambient.create_nc_db', 'scratch-file', d,
+                       lambda: ambient.create_nc_db(path, 'C20 cast', 'harness/c20.py', 'No Sea Name', r.uniform(-60., 60.),
+                                                    r.uniform(0., 360.), 1275177600.0 + r.uniform(0., 1e8)), need=True)
+        try:
+            com = ['synthetic'] * len(names)
+            # depths, temperature and salinity first; pressure (other unit system is rejected by design, so standard units)
+            ok = S.attempt('ambient.fill_nc_db', 'z-T-S', d, lambda: _nc_numbers(ambient.fill_nc_db(nc, data[:, :3].copy(), names[:3], units[:3], com[:3], 0), names[:3]))
+            if ok is not FAILED:
+                S.attempt('ambient.fill_nc_db', 'pressure-on-existing-depths', d,
+                          lambda: _nc_numbers(ambient.fill_nc_db(nc, data[:, [0, 3]].copy(), ['z', 'pressure'], ['m', 'Pa'], ['measured', 'computed'], 0), ['pressure']))
+                # new variables on a coarser / shorter depth grid: interpolated to the existing depths
+                zc = np.linspace(0.1 * ps['H'], 0.8 * ps['H'], r.randint(2, 8))
+                new = np.column_stack([1e-3 * (1. + zc / ps['H']), zc, 0.1 * np.cos(zc / ps['H'])])
+                S.attempt('ambient.fill_nc_db', 'new-variables-z_col-1', dict(d, data=new),
+                          lambda: _nc_numbers(ambient.fill_nc_db(nc, new.copy(), ['oxygen', 'z', 'ua'], ['kg/m^3', 'm', 'm/s'], ['measured'] * 3, 1), ['oxygen', 'ua']))
+                S.attempt('ambient.get_nc_data', 'ztsp+chems', d, lambda: ambient.get_nc_data(nc, names[:4], ['oxygen', 'ua']))
+        finally:
+            nc.close()
+
+
+@entry('ambient.add_data', 'ambient.extract_profile', 'ambient.coarsen', 'ambient.stabilize', 'ambient.compute_pressure',
+       'ambient.convert_units', 'ambient.get_world_ocean', 'ambient.load_raw')
+def _amb_arrays(S):
+    from tamoc import ambient
+    r = S.r
+    for i in range(S.reps()):
+        data, names, units, ps = _cast(r, n=r.randint(20, 120))
+        H = ps['H']
+        d = {'cast': ps, 'names': names}
+        # ---- add_data: replace a column / add a column from a table on another grid
+        zc = np.linspace(0.1 * H, 0.9 * H, r.randint(2, 9))
+        new = np.column_stack([zc, 1e-3 * (1. + zc / H), 280. + 0. * zc])
+        S.attempt('ambient.add_data', 'new-column', dict(d, new_data=new),
+                  lambda: ambient.add_data(data.copy(), data.shape[1], 'argon', new.copy(), ['z', 'argon', 'temperature'], ['m', 'kg/m^3', 'K'], 'measured', 0))
+        S.attempt('ambient.add_data', 'replace-column', dict(d, new_data=new),
+                  lambda: ambient.add_data(data.copy(), 1, 'temperature', new.copy(), ['z', 'argon', 'temperature'], ['m', 'kg/m^3', 'K'], 'measured', 0))
+        # ---- extract_profile: raw record with a surface soak (z < z_start) and an up-cast after the deepest sample
+        n = data.shape[0]
+        dz = H / (n - 1)
+        k = r.randint(1, 3)
+        zr = np.concatenate([np.arange(0, k + 1) * dz + 1., (k - np.arange(1, k + 1)) * dz + 1.5, np.linspace(2., H, n), H - np.arange(1, 6) * dz])
+        raw = np.column_stack([zr, 290. - 10. * zr / H, 34. + zr / H, 101325. + 1.e4 * zr])
+        z_start = r.choice([50., max(3. * k * dz, 10.)])
+        if H > z_start:
+            S.attempt('ambient.extract_profile', 'soak+upcast', dict(d, data=raw, z_start=z_start, p_col=3),
+                      lambda: ambient.extract_profile(raw.copy(), z_col=0, z_start=z_start, p_col=3, P_atm=101325.))
+        S.attempt('ambient.extract_profile', 'monotone', dict(d, z_start=50.), lambda: ambient.extract_profile(data.copy(), z_col=0, z_start=50.))
+        # ---- coarsen / stabilize
+        err = r.choice([0.01, 0.001, 0.2])
+        S.attempt('ambient.coarsen', 'cast', dict(d, err=err), lambda: ambient.coarsen(data.copy(), err))
+        inv = data.copy()
+        for _k in range(r.randint(0, 3)):
+            j = r.randrange(1, n - 1)
+            inv[j, 1] += r.uniform(0.5, 5.)              # warm parcels: density inversions
+        S.attempt('ambient.stabilize', 'inversions', dict(d, data=inv), lambda: ambient.stabilize(inv.copy()))
+        # ---- compute_pressure, depth positive down, free surface first (the convention of every tamoc model)
+        z, T, Sa = data[:, 0], data[:, 1], data[:, 2]
+        S.attempt('ambient.compute_pressure', 'positive-depths:surface-first', d, lambda: ambient.compute_pressure(z.copy(), T.copy(), Sa.copy(), 0))
+        # docstring example: negative elevations, free surface last
+        S.attempt('ambient.compute_pressure', 'negative-depths:surface-last', d,
+                  lambda: ambient.compute_pressure(-z[::-1].copy(), T[::-1].copy(), Sa[::-1].copy(), -1))
+        # ---- convert_units
+        tab = np.array([[10., 25.4, 9.5, 34., 1500., 0.3], [100., 10.7, 8.4, 34.5, 150., 0.1]])
+        un = ['m', 'deg C', 'mg/l', 'psu', 'db', 'm/s']
+        S.attempt('ambient.convert_units', '2-D', {'data': tab, 'units': un}, lambda: ambient.convert_units(tab.copy(), list(un)))
+        S.attempt('ambient.convert_units', 'scalar', {'data': 10., 'units': 'deg C'}, lambda: ambient.convert_units(10., 'deg C'))
+        S.attempt('ambient.convert_units', 'int', {'data': 10, 'units': 'deg C'}, lambda: ambient.convert_units(10, 'deg C'))
+        S.attempt('ambient.convert_units', 'list-row', {'data': [5., 10., 20.], 'units': ['MPa', 'Celsius', 'ppt']},
+                  lambda: ambient.convert_units([5., 10., 20.], ['MPa', 'Celsius', 'ppt']))
+        col = np.atleast_2d(np.array([1., 2., 3.])).transpose()
+        S.attempt('ambient.convert_units', 'column', {'data': col, 'units': ['mg/m^3']}, lambda: ambient.convert_units(col.copy(), ['mg/m^3']))
+        S.attempt('ambient.convert_units', 'unknown-unit', {'data': [1., 2.], 'units': ['furlong', 'm']},
+                  lambda: ambient.convert_units([1., 2.], ['furlong', 'm']))
+        # ---- world ocean
+        Ts, Ss = r.uniform(275., 303.), r.uniform(30., 37.)
+        S.attempt('ambient.get_world_ocean', 'defaults', {}, lambda: ambient.get_world_ocean())
+        S.attempt('ambient.get_world_ocean', 'surface-values', {'Ts': Ts, 'Ss': Ss}, lambda: ambient.get_world_ocean(Ts, Ss))
+        # ---- load_raw
+        path = S.tmp('raw') + '.txt'
+        with open(path, 'w') as f:
+            f.write('# synthetic cast\n* header line\n')
+            for row in data[:15]:
+                f.write(' '.join('%.10g' % v for v in row) + '\n')
+        S.attempt('ambient.load_raw', 'text-file', {'rows': 15, 'columns': int(data.shape[1])}, lambda: ambient.load_raw(path))
+        os.remove(path)
+    # ---- input kinds with their own key (valid per the docstrings; what they trigger is recorded separately)
+    data, names, units, ps = _cast(r, n=30, H=300.)
+    z, T, Sa = data[:, 0], data[:, 1], data[:, 2]
+    S.attempt('ambient.compute_pressure', 'negative-depths:surface-first', {'cast': ps},
+              lambda: ambient.compute_pressure(-z.copy(), T.copy(), Sa.copy(), 0), edge=True)
+    S.attempt('ambient.compute_pressure', 'positive-depths:surface-last', {'cast': ps},
+              lambda: ambient.compute_pressure(z[::-1].copy(), T[::-1].copy(), Sa[::-1].copy(), -1), edge=True)
+    shallow = data[data[:, 0] < 40., :]
+    S.attempt('ambient.extract_profile', 'cast-shallower-than-z_start', {'depths': shallow[:, 0], 'z_start': 50.},
+              lambda: ambient.extract_profile(shallow.copy(), z_col=0, z_start=50.), edge=True)
+
+
+# =====================================================================================================
+# particle_size_models
+# =====================================================================================================
+
+def _jet_fluids(r):
+    return dict(rho_gas=lu(r, 5., 300.), mu_gas=lu(r, 1e-5, 3e-5), sigma_gas=r.uniform(0.03, 0.07), rho_oil=r.uniform(600., 950.),
+                mu_oil=lu(r, 2e-4, 5e-2), sigma_oil=r.uniform(0.01, 0.04), rho=r.uniform(1020., 1060.), mu=lu(r, 1e-3, 1.8e-3))
+
+
+def _psd_numbers(m, fp_types=(0, 1)):
+    out = {}
+    for ph in ('gas', 'oil'):
+        d50 = getattr(m, 'd50_' + ph, None)
+        out['d50_' + ph] = d50
+        if d50 is None or d50 == 0.:
+            continue          # "There is no gas / liquid in this mixture": the spread parameters of an absent phase mean nothing
+        for a in ('de_max_', 'k_', 'alpha_', 'sigma_ln_'):
+            if hasattr(m, a + ph):
+                out[a + ph] = getattr(m, a + ph)
+    return out
+
+
+PSM_GAS = [('wang_etal', 'lognormal'), ('li_etal', 'lognormal'), ('li_etal', 'rosin-rammler')]
+PSM_OIL = [('sintef', 'rosin-rammler'), ('sintef', 'lognormal'), ('li_etal', 'rosin-rammler'), ('li_etal', 'lognormal')]
+
+
+@entry('particle_size_models.ModelBase', 'particle_size_models.ModelBase.update_properties', 'particle_size_models.ModelBase.simulate',
+       'particle_size_models.ModelBase.get_de_max', 'particle_size_models.ModelBase.get_d50',
+       'particle_size_models.ModelBase.get_distributions')
+def _psm_base(S):
+    from tamoc import particle_size_models as psm
+    r = S.r
+    P = 'particle_size_models.ModelBase'
+    order = ('rho_gas', 'mu_gas', 'sigma_gas', 'rho_oil', 'mu_oil', 'sigma_oil', 'rho', 'mu')
+    for i in range(S.reps()):
+        fl = _jet_fluids(r)
+        mb = S.attempt(P, 'fluids', fl, lambda: psm.ModelBase(*[fl[k] for k in order]), need=True)
+        for fp in (0, 1):
+            S.attempt(P + '.get_de_max', 'before-simulate:fp%d' % fp, fl, lambda fp=fp: mb.get_de_max(fp))
+        fl2 = _jet_fluids(r)
+        S.attempt(P + '.update_properties', 'fluids', fl2, lambda: (mb.update_properties(*[fl2[k] for k in order]), [getattr(mb, k) for k in order])[1])
+        d0 = lu(r, 0.01, 1.)
+        phases = ('gas+oil', 'gas-only', 'oil-only')[i % 3]
+        m_gas = 0. if phases == 'oil-only' else lu(r, 1e-2, 50.)
+        m_oil = 0. if phases == 'gas-only' else lu(r, 1e-1, 200.)
+        (mg, pg), (mo, po) = r.choice(PSM_GAS), r.choice(PSM_OIL)
+        d = dict(fl2, d0=d0, m_gas=m_gas, m_oil=m_oil, model_gas=mg, pdf_gas=pg, model_oil=mo, pdf_oil=po)
+        kind = '%s:%s/%s:%s/%s' % (phases, mg, pg, mo, po)
+        ok = S.attempt(P + '.simulate', kind, d,
+                       lambda: (mb.simulate(d0, m_gas, m_oil, model_gas=mg, model_oil=mo, pdf_gas=pg, pdf_oil=po,
+                                            Pj=lu(r, 5e5, 3e7), Tj=r.uniform(275., 350.)), _psd_numbers(mb))[1])
+        if ok is FAILED:
+            continue
+        for fp in (0, 1):
+            S.attempt(P + '.get_de_max', kind, d, lambda fp=fp: mb.get_de_max(fp))
+            S.attempt(P + '.get_d50', kind, d, lambda fp=fp: mb.get_d50(fp))
+        ng, no = r.randint(1, 30), r.randint(1, 30)
+        S.attempt(P + '.get_distributions', kind, dict(d, nbins_gas=ng, nbins_oil=no), lambda: mb.get_distributions(ng, no))
+    # documented combination with its own key: wang_etal median size with a Rosin-Rammler distribution
+    fl = _jet_fluids(r)
+    mb = psm.ModelBase(*[fl[k] for k in order])
+    d = dict(fl, d0=0.2, m_gas=5., m_oil=30., model_gas='wang_etal', pdf_gas='rosin-rammler')
+
+    def wang_rr():
+        mb.simulate(0.2, 5., 30., model_gas='wang_etal', pdf_gas='rosin-rammler')
+        return mb.get_distributions(10, 10)
+    S.attempt(P + '.get_distributions', 'wang_etal/rosin-rammler', d, wang_rr, edge=True)
+
+
+@entry('particle_size_models.PureJet', 'particle_size_models.PureJet.update_properties', 'particle_size_models.PureJet.simulate',
+       'particle_size_models.PureJet.get_de_max', 'particle_size_models.PureJet.get_d50', 'particle_size_models.PureJet.get_distributions')
+def _psm_jet(S):
+    from tamoc import particle_size_models as psm
+    r = S.r
+    P = 'particle_size_models.PureJet'
+    for i in range(S.reps()):
+        fp = i % 2
+        fl = _jet_fluids(r)
+        a = (fl['rho_gas'], fl['mu_gas'], fl['sigma_gas']) if fp == 0 else (fl['rho_oil'], fl['mu_oil'], fl['sigma_oil'])
+        d = dict(rho_p=a[0], mu_p=a[1], sigma_p=a[2], rho=fl['rho'], mu=fl['mu'], fp_type=fp)
+        pj = S.attempt(P, 'fp%d' % fp, d, lambda: psm.PureJet(a[0], a[1], a[2], fl['rho'], fl['mu'], fp_type=fp), need=True)
+        S.attempt(P + '.get_de_max', 'before-simulate:fp%d' % fp, d, lambda: pj.get_de_max())
+        S.attempt(P + '.update_properties', 'fp%d' % fp, d,
+                  lambda: (pj.update_properties(a[0] * 1.01, a[1], a[2], fl['rho'], fl['mu'], fp), pj.get_de_max())[1])
+        # "the model choice must agree with the fluid of interest"
+        model, pdf = r.choice(PSM_GAS) if fp == 0 else r.choice(PSM_OIL)
+        d0, m = lu(r, 0.01, 1.), lu(r, 1e-2, 100.)
+        d = dict(d, d0=d0, m=m, model=model, pdf=pdf)
+        kind = 'fp%d:%s/%s' % (fp, model, pdf)
+        if S.attempt(P + '.simulate', kind, d, lambda: (pj.simulate(d0, m, model=model, pdf=pdf), _psd_numbers(pj))[1]) is FAILED:
+            continue
+        S.attempt(P + '.get_de_max', kind, d, lambda: pj.get_de_max())
+        S.attempt(P + '.get_d50', kind, d, lambda: pj.get_d50())
+        nb = r.randint(1, 30)
+        S.attempt(P + '.get_distributions', kind, dict(d, nbins=nb), lambda: pj.get_distributions(nb))
+    fl = _jet_fluids(r)
+    pj = psm.PureJet(fl['rho_gas'], fl['mu_gas'], fl['sigma_gas'], fl['rho'], fl['mu'], fp_type=0)
+
+    def wang_rr():
+        pj.simulate(0.2, 5., model='wang_etal', pdf='rosin-rammler')
+        return pj.get_distributions(10)
+    S.attempt(P + '.get_distributions', 'wang_etal/rosin-rammler', dict(fl, d0=0.2, m=5., fp_type=0), wang_rr, edge=True)
+
+
+def _live_oil(r, phases='two-phase'):
+    """a FluidMixture and component mass fluxes (kg/s): light gases + liquid hydrocarbons"""
+    from tamoc import dbm
+    if phases == 'oil-only':
+        comp = r.sample(HC_LIQ, r.randint(2, 4))
+        w = dirichlet(r, len(comp))
+    elif phases == 'gas-only':
+        comp = ['methane'] + r.sample(['ethane', 'propane', 'nitrogen'], r.randint(0, 2))
+        w = dirichlet(r, len(comp), first=0.7)
+    else:
+        light = ['methane'] + r.sample(['ethane', 'propane'], r.randint(0, 2))
+        heavy = r.sample(HC_LIQ[3:], r.randint(2, 4))
+        comp = light + heavy
+        w = np.concatenate([dirichlet(r, len(light)) * r.uniform(0.1, 0.5), dirichlet(r, len(heavy))])
+        w = w / w.sum()
+    oil = dbm.FluidMixture(comp)
+    m = w * lu(r, 0.5, 100.)
+    return oil, m, {'composition': comp, 'm_mixture': m}
+
+
+@entry('particle_size_models.Model', 'particle_size_models.Model.update_properties', 'particle_size_models.Model.update_z0',
+       'particle_size_models.Model.update_Tj', 'particle_size_models.Model.update_m_mixture', 'particle_size_models.Model.simulate',
+       'particle_size_models.Model.get_de_max', 'particle_size_models.Model.get_d50', 'particle_size_models.Model.get_distributions')
+def _psm_model(S):
+    from tamoc import particle_size_models as psm
+    r = S.r
+    P = 'particle_size_models.Model'
+
+    def state(mo):
+        return [mo.rho, mo.mu, mo.Tj, mo.Pj, mo.m_gas, mo.m_oil, mo.rho_gas, mo.mu_gas, mo.sigma_gas, mo.rho_oil, mo.mu_oil, mo.sigma_oil]
+    for i in range(S.reps()):
+        phases = ('two-phase', 'two-phase', 'oil-only', 'gas-only')[i % 4]
+        ps = profile_spec(r, H=r.choice([800., 1500., 3000.]), current='none')
+        prf = build_profile(ps)
+        oil, m, d = _live_oil(r, phases)
+        z0 = r.uniform(0.2, 0.95) * ps['H']
+        Tj = r.choice([None, r.uniform(280., 370.)])
+        d = dict(d, profile=ps, z0=z0, Tj_user=Tj)
+        mo = S.attempt(P, phases, d, lambda: psm.Model(prf, oil, m.copy(), z0, Tj_user=Tj), need=True)
+        S.attempt(P, phases + ':attributes', d, lambda: state(mo))
+        S.attempt(P + '.get_de_max', phases + ':before-simulate', d,
+                  lambda: [mo.get_de_max(fp) for fp, x in ((0, mo.rho_gas), (1, mo.rho_oil)) if x is not None])
+        z1, T1 = r.uniform(0.2, 0.95) * ps['H'], r.uniform(280., 370.)
+        S.attempt(P + '.update_z0', phases, dict(d, z0=z1), lambda: (mo.update_z0(z1), state(mo))[1])
+        S.attempt(P + '.update_Tj', phases, dict(d, Tj=T1), lambda: (mo.update_Tj(T1), state(mo))[1])
+        m2 = m * r.uniform(0.3, 3.)
+        S.attempt(P + '.update_m_mixture', phases, dict(d, m_mixture=m2), lambda: (mo.update_m_mixture(m2.copy()), state(mo))[1])
+        S.attempt(P + '.update_properties', phases, d, lambda: (mo.update_properties(prf, oil, m.copy(), z0, Tj, None), state(mo))[1])
+        d0 = lu(r, 0.02, 0.8)
+        (mg, pg), (mo_, po) = r.choice(PSM_GAS), r.choice(PSM_OIL)
+        dd = dict(d, d0=d0, model_gas=mg, pdf_gas=pg, model_oil=mo_, pdf_oil=po)
+        kind = '%s:%s/%s:%s/%s' % (phases, mg, pg, mo_, po)
+        ok = S.attempt(P + '.simulate', kind, dd,
+                       lambda: (mo.simulate(d0, model_gas=mg, pdf_gas=pg, model_oil=mo_, pdf_oil=po), _psd_numbers(mo))[1])
+        if ok is FAILED:
+            continue
+        for fp in (0, 1):
+            S.attempt(P + '.get_de_max', kind, dd, lambda fp=fp: mo.get_de_max(fp))
+            S.attempt(P + '.get_d50', kind, dd, lambda fp=fp: mo.get_d50(fp))
+        ng, no = r.randint(1, 25), r.randint(1, 25)
+        S.attempt(P + '.get_distributions', kind, dict(dd, nbins_gas=ng, nbins_oil=no), lambda: mo.get_distributions(ng, no))
+
+
+# =====================================================================================================
+# dbm_utilities
+# =====================================================================================================
+
+def _dead_oil(r, live=False):
+    """substance dictionary of database compounds: dead oil (liquids only) or live oil (with light gases)"""
+    heavy = r.sample(HC_LIQ[3:], r.randint(2, 5))
+    if live:
+        light = ['methane'] + r.sample(['ethane', 'propane'], r.randint(0, 2))
+        comp = light + heavy
+        w = np.concatenate([dirichlet(r, len(light)) * r.uniform(0.05, 0.4), dirichlet(r, len(heavy))])
+    else:
+        comp, w = heavy, dirichlet(r, len(heavy))
+    return {'composition': comp, 'masses': w * r.choice([1., r.uniform(0.5, 20.)])}
+
+
+def _pseudo_components(r):
+    """SIMAP-like pseudo-component table: aromatic (AR) and aliphatic (AL) cuts above n-C6 + a residual"""
+    n_ar, n_al = r.randint(2, 4), r.randint(2, 4)
+    names = ['AR%d' % (i + 1) for i in range(n_ar)] + ['AL%d' % (i + 1) for i in range(n_al)] + ['residual']
+    tb = np.concatenate([np.sort([r.uniform(80., 330.) for _ in range(n_ar)]), np.sort([r.uniform(70., 350.) for _ in range(n_al)]),
+                         [r.uniform(380., 450.)]])                                   # deg C
+    mw = 60. + 0.55 * tb + np.array([r.uniform(0., 15.) for _ in names])              # g/mol, increasing with boiling point
+    vp = 10 ** (-(tb - 30.) / 60.) * np.array([r.uniform(0.5, 2.) for _ in names])    # atm at 25 C
+    sol = 10 ** (3.5 - tb / 60.) * np.array([r.uniform(0.5, 2.) for _ in names])      # mg/l
+    mf = dirichlet(r, len(names))
+    return {'name': 'C20 synthetic pseudo-component oil', 'simap_names': names, 'molecular_weight': mw, 'mass_fraction': mf,
+            'boiling_point': tb, 'vapor_pressure': vp, 'solubility': sol, 'T_0': np.array([288.15, 298.15]),
+            'rho_0': np.array([r.uniform(830., 900.)] * 2) - np.array([0., 7.])}
+
+
+@entry('dbm_utilities.get_oil', 'dbm_utilities.load_tamoc_oil', 'dbm_utilities.format_dbm_data', 'dbm_utilities.mix_gas_for_gor',
+       'dbm_utilities.natural_gas', 'dbm_utilities.gas_fraction', 'dbm_utilities.set_mass_fluxes', 'dbm_utilities.pedersen',
+       'dbm_utilities.print_chemdata', 'dbm_utilities.print_composition', 'dbm_utilities.print_petroleum_props')
+def _util_oil(S):
+    from tamoc import dbm, dbm_utilities as du
+    r = S.r
+    U = 'dbm_utilities.'
+
+    def oil_numbers(res):
+        oil, mf = res
+        return [mf, oil.M, oil.Pc, oil.Tc, oil.omega, oil.delta]
+    S.attempt(U + 'natural_gas', 'constant', {}, lambda: du.natural_gas())
+    for i in range(S.reps()):
+        # ---- get_oil: dead oil + GOR, live oil without added gas, atmospheric gases, gas-rate specification
+        gor = (0., lu(r, 50., 3000.), lu(r, 50., 3000.))[i % 3]
+        sub = _dead_oil(r, live=(gor == 0. and r.random() < 0.7))
+        q_oil = lu(r, 500., 1e5)
+        ca = r.choice([[], ['nitrogen', 'oxygen', 'argon', 'carbon_dioxide'], ['oxygen']])
+        fp = 1 if (gor == 0. or r.random() < 0.7) else 0
+        d = dict(sub, q_oil=q_oil, gor=gor, ca=ca, fp_type=fp)
+        S.attempt(U + 'get_oil', 'gor%s:ca%d:fp%d' % ('>0' if gor else '=0', len(ca), fp), d,
+                  lambda: oil_numbers(du.get_oil({'composition': list(sub['composition']), 'masses': np.array(sub['masses'])}, q_oil, gor, list(ca), fp)))
+        # ---- the steps get_oil is made of
+        masses = r.choice([sub['masses'], list(sub['masses'])])
+        res = S.attempt(U + 'load_tamoc_oil', 'masses-' + type(masses).__name__, sub,
+                        lambda: du.load_tamoc_oil({'composition': list(sub['composition']), 'masses': masses}))
+        if res is FAILED:
+            continue
+        comp, mf, user_data, delta, dgroups, units = res
+        fm = dbm.FluidMixture(list(comp))
+        opt = r.random() < 0.5
+        S.attempt(U + 'format_dbm_data', 'all-properties' if opt else 'required-only', {'composition': comp},
+                  lambda: du.format_dbm_data(list(comp), fm.M, fm.Pc, fm.Tc, fm.omega, fm.kh_0, fm.neg_dH_solR, fm.nu_bar, fm.K_salt,
+                                             *((fm.Vc, fm.Tb, fm.Vb, fm.B, fm.dE) if opt else ())))
+        S.attempt(U + 'pedersen', 'hydrocarbons', {'composition': comp}, lambda: du.pedersen(fm.M.copy(), list(comp)))
+        air = dbm.FluidMixture(list(comp) + ['nitrogen', 'carbon_dioxide', 'oxygen', 'argon'])
+        S.attempt(U + 'pedersen', 'with-atmospheric-gases', {'composition': air.composition}, lambda: du.pedersen(air.M.copy(), list(air.composition)))
+        S.attempt(U + 'pedersen', 'no-names', {'M': fm.M}, lambda: du.pedersen(fm.M.copy()))
+        dead = _dead_oil(r)
+        dc, dmf, dud, ddelta, ddg, _u = du.load_tamoc_oil(dict(dead))
+        g = lu(r, 50., 3000.)
+        live = S.attempt(U + 'mix_gas_for_gor', 'delta_groups-None', dict(dead, gor=g),
+                         lambda: du.mix_gas_for_gor(list(dc), dmf.copy(), dud, ddelta, None, g))
+        if live is not FAILED:
+            lc, lmf, ldelta, ldg = live
+            loil = dbm.FluidMixture(list(lc), delta=ldelta, user_data=dud)
+            gas_comp, gas_mf, _gg = du.natural_gas()
+            mfg, mfo = np.zeros(len(lc)), np.zeros(len(lc))
+            mfg[:len(gas_mf)] = gas_mf
+            mfo[len(gas_mf):] = dmf
+            beta = r.uniform(0.02, 0.6)
+            S.attempt(U + 'gas_fraction', 'standard-conditions', dict(dead, beta=beta, gor_0=g),
+                      lambda: du.gas_fraction(beta, g, loil, mfg.copy(), mfo.copy(), 288.15, 101325.))
+            q = lu(r, 500., 1e5)
+            S.attempt(U + 'set_mass_fluxes', 'oil-rate', dict(dead, gor=g, q_oil=q),
+                      lambda: du.set_mass_fluxes(list(lc), np.array(lmf), dud, ldelta, None, q, 1))
+            S.attempt(U + 'set_mass_fluxes', 'gas-rate', dict(dead, gor=g, q_oil=q),
+                      lambda: du.set_mass_fluxes(list(lc), np.array(lmf), dud, ldelta, None, q, 0))
+            T, Sa, P = r.uniform(275., 300.), r.uniform(30., 36.), lu(r, 1e6, 2e7)
+            S.attempt(U + 'print_petroleum_props', 'q_oil-None', dict(dead, gor=g, T=T, S=Sa, P=P),
+                      lambda: du.print_petroleum_props(list(lc), np.array(lmf), dud, ldelta, None, T, Sa, P))
+        S.attempt(U + 'print_composition', 'database', sub, lambda: du.print_composition(list(comp), np.array(mf)))
+        S.attempt(U + 'print_chemdata', 'chems-list', {'composition': comp}, lambda: du.print_chemdata(user_data, units, list(comp)))
+    # ---- documented argument forms with their own key
+    dead = _dead_oil(r)
+    dc, dmf, dud, ddelta, ddg, units = du.load_tamoc_oil(dict(dead))
+    S.attempt(U + 'print_chemdata', 'chems-None', {'composition': dc}, lambda: du.print_chemdata(dud, units), edge=True)
+    live = du.mix_gas_for_gor(list(dc), dmf.copy(), dud, ddelta, None, 500.)
+    S.attempt(U + 'print_petroleum_props', 'q_oil-given', dict(dead, gor=500., q_oil=20000.),
+              lambda: du.print_petroleum_props(list(live[0]), np.array(live[1]), dud, live[2], None, 285., 35., 1e7, q_oil=20000.), edge=True)
+    # Privat & Jaubert group contributions of the dead-oil compounds as an array ("delta_groups : None or np.array")
+    fm = dbm.FluidMixture(list(dc), delta_groups={})
+    S.attempt(U + 'mix_gas_for_gor', 'delta_groups-ndarray', dict(dead, gor=500.),
+              lambda: du.mix_gas_for_gor(list(dc), dmf.copy(), dud, ddelta, np.array(fm.delta_groups), 500.), edge=True)
+
+
+@entry('dbm_utilities.sequence_names', 'dbm_utilities.get_solubility', 'dbm_utilities.get_henry_constant',
+       'dbm_utilities.get_preos_params', 'dbm_utilities.compute_Vb', 'dbm_utilities.Vc_tuning', 'dbm_utilities.load_simap_oil')
+def _util_pseudo(S):
+    from tamoc import dbm_utilities as du
+    r = S.r
+    U = 'dbm_utilities.'
+    for i in range(S.reps()):
+        names = ['Saturates', 'Aromatics', 'Saturates', 'Resins', 'Aromatics', 'Asphaltenes', 'Saturates']
+        which = r.choice(['Saturates', 'Aromatics'])
+        S.attempt(U + 'sequence_names', which, {'sara_names': names, 'name': which},
+                  lambda: (lambda l: (du.sequence_names(l, which), l)[1])(list(names)))
+        sm = _pseudo_components(r)
+        nm = sm['simap_names']
+        mw, tb = sm['molecular_weight'], sm['boiling_point'] + 273.15
+        rho = np.array([r.uniform(700., 1000.) for _ in nm])
+        d = {k: v for k, v in sm.items()}
+        sol = S.attempt(U + 'get_solubility', 'pseudo-components', dict(molecular_weight=mw, density=rho), lambda: du.get_solubility(mw.copy(), rho.copy()))
+        if sol is not FAILED:
+            S.attempt(U + 'get_henry_constant', 'pseudo-components', dict(solubility=sol, vapor_pressure=sm['vapor_pressure'] * 101325., molecular_weight=mw),
+                      lambda: du.get_henry_constant(sol.copy(), sm['vapor_pressure'] * 101325., mw.copy()))
+        pre = S.attempt(U + 'get_preos_params', 'above-nC6', dict(Tb=tb, M=mw, rho=rho), lambda: du.get_preos_params(tb.copy(), mw.copy(), rho.copy()))
+        Vc = r.uniform(2e-4, 1.5e-3)
+        S.attempt(U + 'compute_Vb', 'float', {'Vc': Vc}, lambda: du.compute_Vb(Vc))
+        if pre is not FAILED:
+            Tc, Pc, Vc_a, M, omega, delta = pre
+            S.attempt(U + 'compute_Vb', 'array', {'Vc': Vc_a}, lambda: du.compute_Vb(Vc_a.copy()))
+            if i % 5 == 0:
+                # tune Vc of every pseudo-component to its density (what load_simap_oil / load_adios_oil do)
+                nu_bar = (-2.203e-5 * Pc + 518.6 * M + 143.4) * 1.e-6
+                dH = 2.637 * Tc + 22.48e6 * nu_bar + 314.6
+                Ks = (-1.345 * M + 2799.4 * nu_bar + 0.083556) / 1000.
+                kh = du.get_henry_constant(du.get_solubility(mw, rho), sm['vapor_pressure'] * 101325., mw)
+                ud, units = du.format_dbm_data(list(nm), M, Pc, Tc, omega, kh, dH, nu_bar, Ks, Vc_a, tb, du.compute_Vb(Vc_a))
+                mf = sm['mass_fraction']
+                rho_i = rho * np.sum(rho * mf) / (1. / np.sum(mf / rho))
+                S.attempt(U + 'Vc_tuning', 'pseudo-components', dict(d, rho_i=rho_i),
+                          lambda: {k: v['Vc'] for k, v in du.Vc_tuning(mf.copy(), list(nm), sm['T_0'], sm['rho_0'], np.zeros(2), rho_i, delta, ud).items()})
+        if i % 5 == 0:
+            S.attempt(U + 'load_simap_oil', 'synthetic-table', d,
+                      lambda: (lambda res: [res[1], {k: list(v.values()) for k, v in res[2].items()}, res[3]])(du.load_simap_oil(dict(sm))))
+
+
+# =====================================================================================================
+# params.Scales
+# =====================================================================================================
+
+@entry('params.Scales', 'params.Scales.simulate', 'params.Scales.save_txt', 'params.Scales.get_variables', 'params.Scales.h_T',
+       'params.Scales.h_P', 'params.Scales.h_S', 'params.Scales.lambda_1', 'params.Scales.u_inf_crit')
+def _params(S):
+    from tamoc import params
+    r = S.r
+    for i in range(S.reps()):
+        prf, z0, parts, d = _plume_particles(S, current='none')
+        arg = parts[0] if (len(parts) == 1 and r.random() < 0.5) else parts        # a single particle is put into a list by the class
+        sc = S.attempt('params.Scales', '%dparticles' % len(parts), d, lambda: params.Scales(prf, arg), need=True)
+        u = lu(r, 0.01, 0.5)
+        dd = dict(d, u_inf=u)
+        k = '%dparticles' % len(parts)
+        S.attempt('params.Scales.get_variables', k, dd, lambda: sc.get_variables(z0, u))
+        S.attempt('params.Scales.h_T', k, dd, lambda: sc.h_T(z0))
+        S.attempt('params.Scales.h_P', k, dd, lambda: sc.h_P(z0))
+        S.attempt('params.Scales.h_S', k, dd, lambda: sc.h_S(z0, u))
+        n = r.randrange(len(parts))
+        S.attempt('params.Scales.lambda_1', k, dict(dd, n=n), lambda: sc.lambda_1(z0, n))
+        S.attempt('params.Scales.u_inf_crit', k, dd, lambda: sc.u_inf_crit(z0))
+        S.attempt('params.Scales.simulate', k, dd, lambda: sc.simulate(z0, u))
+        base = S.tmp('scales')
+        S.attempt('params.Scales.save_txt', k, dd,
+                  lambda: (sc.save_txt(z0, u, base, 'profile.nc', 'synthetic profile'), np.loadtxt(base + '.txt'))[1])
+        for f in (base + '.txt', base + '_header.txt'):
+            if os.path.exists(f):
+                os.remove(f)
 
 
 # =====================================================================================================
